@@ -47,14 +47,15 @@ _SCHED_TRUST = ['interface contract (L): IResource.get_available_units is a pure
                 'induction schema for snoc-lists (ledger) and the function-by-function / recursion-by-contract meta-argument',
                 'structure facts assumed at the entry of the passes (established by calc and by the graph invariants, not re-proved here): links and children non-null, '
                 'rank decreasing along every waits-for edge (exists iff _check_loops accepts; K1), ids unique in the WBS (C05), Task.all_parents lists parent first then its ancestors, summary fields cleared by __prepare_tasks']
-_SCHED_B = ['ForwardScheduler.calc / BackwardScheduler.calc (composition of the passes over the roots, WBS.clone) - bounded stand-in only',
+_SCHED_B = ['WBS.clone (used by calc by assumed contract: a fresh WBS; with the passed validations and the graph invariants it yields the structure facts of the passes, for the closed world of the copy\'s tasks) - bounded stand-in (C10)',
             '_check_loops, _check_loops_from_task (cycle detection incl. cycles through the hierarchy) - bounded stand-in only',
             'ResourceUsageReport.rows(filter) - bounded stand-in only']
 _SCHED_EXPL = ('contract-based deductive verification of the functions the property lives in: the four scheduling kernels (fill loops and availability searches of both schedulers), '
                '_ResourceUsage.reserve/reserved and ResourceUsageReport.reserved (sum-comprehensions proved equal to the ledger specification functions by induction), and the two recursive passes '
                '__forward_pass/__backward_pass checked against their own contracts at every call site (recursion = induction, termination by rank). All loops are cut by invariants - no bound on WBS size, '
-               'calendar, dates or amounts; capacity is an uninterpreted function, so the proofs hold for every calendar. Level `other`, not `proof`: calc (the composition over the roots), clone and the '
-               'validation helpers are only covered by the bounded native stand-in, and the structure facts listed under trusted are assumed at the entry of the passes. ')
+               'calendar, dates or amounts; capacity is an uninterpreted function, so the proofs hold for every calendar. ForwardScheduler.calc and BackwardScheduler.calc are checked too: the base case (empty ledger, nothing scheduled, summaries cleared by the proved __prepare_tasks) establishes the pass pre-condition, '
+               'the loop over the roots keeps it, and on return the ledger invariant (C03), start <= end / complete fields of every scheduled task (C07), no work for unscheduled tasks (C04) and every root scheduled (C14) hold. '
+               'Level `other`, not `proof`: clone and the cycle check are only covered by the bounded native stand-in; the structure facts listed under trusted are assumed at the clone call (closed world: links inside the WBS). ')
 PROPS.update({
     'C02': P('other', _SCHED_EXPL + 'C02 clauses proved: a scheduler-chosen start is on/after the day of the end of every own and inherited prerequisite (inherited = predecessors of every ancestor, final because calculated), '
              'of the project start, min_start and the clock; no row of the task before its start day nor before today; a milestone sits exactly at the latest prerequisite end or the project start.',
